@@ -295,6 +295,87 @@ pub fn run(tier: Tier) -> i32 {
         });
         ctx.scope_done("adversarial-symbol-region", total.load(Ordering::Relaxed), t1, &format!("{} streams; all 1- and 2-cut sets inside the ~44 bytes that hold the expensive symbols, periods 1..40, BufReader 1..64", jobs.len()));
     }
+    // ---------------------------------------------------------------- long inputs (linear): chunks and headers larger than any window a
+    // small reader exposes - uncompressed LZMA2 chunks of 9000 / 20000 / 65536 bytes with and without dictionary reset
+    // after earlier data, 1024-byte block headers (valid, and with one non-zero padding byte far into the padding)
+    {
+        let t2 = Instant::now();
+        let mut big: Vec<In> = Vec::new();
+        let blob: Vec<u8> = (0..100_000u32).map(|i| (i.wrapping_mul(2246822519) >> 19) as u8).collect();
+        for second_reset in [false, true] {
+            let cs = vec![
+                Chunk::U { reset: true, data: blob[..100].to_vec() },
+                Chunk::U { reset: second_reset, data: blob[100..9100].to_vec() },
+                Chunk::C { class: 2, props: (3, 0, 2), prog: vec![Sym::M(5000, 30), Sym::L(1)] },
+                Chunk::U { reset: false, data: blob[9100..29100].to_vec() },
+                Chunk::U { reset: false, data: blob[29100..29100 + 65536].to_vec() },
+                Chunk::C { class: 1, props: (3, 0, 2), prog: vec![Sym::M(70_000, 40), Sym::L(2)] },
+            ];
+            let w = lzma2::write(&cs);
+            big.push(In { label: format!("lzma2 with uncompressed chunks of 9000 / 20000 / 65536 bytes (second chunk resets the dictionary: {})", second_reset), fmt: Fmt::Lzma2, opts: Opts::default(), bytes: w.bytes.clone() });
+            let f = XzFile { check_id: 4, blocks: vec![Block { payload: w.bytes, plain: w.expect, with_csize: true, ..Default::default() }], ..Default::default() };
+            big.push(In { label: format!("xz block with uncompressed chunks of 9000 / 20000 / 65536 bytes ({})", second_reset), fmt: Fmt::Xz, opts: Opts::default(), bytes: xz::build(&f).0 });
+        }
+        {
+            let (p, plain) = payload(1, 2, 7);
+            let base = XzFile { check_id: 1, blocks: vec![Block { payload: p, plain, with_usize: true, extra_pad4: 252, ..Default::default() }], ..Default::default() };
+            let (bytes, spans) = xz::build(&base);
+            big.push(In { label: "xz with a 1024-byte block header".into(), fmt: Fmt::Xz, opts: Opts::default(), bytes });
+            if let Some(sp) = spans.iter().find(|s| s.0 == "block0.header_pad") {
+                let plen = sp.2 - sp.1;
+                for at in [0usize, 1, 255, 256, 511, 512, 513, 700, plen - 1] {
+                    if at < plen {
+                        let mut g = base.clone();
+                        let mut pad = vec![0u8; plen];
+                        pad[at] = 0x40;
+                        g.blocks[0].o_header_pad = Some(pad);
+                        big.push(In { label: format!("xz with a 1024-byte block header, padding byte {} of {} non-zero (header CRC correct)", at, plen), fmt: Fmt::Xz, opts: Opts::default(), bytes: xz::build(&g).0 });
+                    }
+                }
+            }
+        }
+        let total = std::sync::atomic::AtomicU64::new(0);
+        par_for(big.len() as u64, |i| {
+            let inp = &big[i as usize];
+            let n = inp.bytes.len();
+            let mk = |rd: Rd| Case::Dec { fmt: inp.fmt, opts: inp.opts, input: Hex(inp.bytes.clone()), rd, sk: Sk::default() };
+            let base = run_case(&mk(Rd::default()));
+            let mut rds: Vec<Rd> = Vec::new();
+            for p in [1usize, 2, 3, 7, 64, 511, 512, 513, 1000, 4096, 8191, 8192, 8193, 65535, 65536] {
+                if p < n && (p > 3 || n < 40_000) {
+                    rds.push(Rd { period: p, ..Rd::default() });
+                }
+            }
+            for c in [1usize, 2, 3, 16, 512, 513, 4096, 8192, 8193, 65536] {
+                if c > 3 || n < 40_000 {
+                    rds.push(Rd { bufreader: c, ..Rd::default() });
+                }
+            }
+            for c in [5usize, 40, 104, 600, 1100, 5000, 9200, 9300, 20000, 29300, 60000] {
+                if c < n {
+                    rds.push(Rd { cuts: vec![c], ..Rd::default() });
+                    rds.push(Rd { cuts: vec![c, c + 1], ..Rd::default() });
+                    rds.push(Rd { cuts: vec![c, (c + 700).min(n - 1)], ..Rd::default() });
+                }
+            }
+            let mut local = 0u64;
+            for rd in rds {
+                let case = mk(rd);
+                let o = run_case(&case);
+                local += 1;
+                let same = o.v.class() == base.v.class() && o.out == base.out && (!base.v.is_ok() || o.consumed == base.consumed);
+                if !same {
+                    ctx.violation(&case, &format!("{}: same as the unfragmented run: verdict {} output {} bytes", inp.label, base.v.class(), base.out.0.len()), &o, None);
+                    break;
+                }
+            }
+            total.fetch_add(local, Ordering::Relaxed);
+            ctx.eval(local);
+            ctx.nontriv(local);
+            runs.fetch_add(local, Ordering::Relaxed);
+        });
+        ctx.scope_done("long-inputs", total.load(Ordering::Relaxed), t2, &format!("{} inputs x periods, BufReader capacities and cuts around the chunk boundaries", big.len()));
+    }
     ctx.set_extra("bound_completed", json!({"max_cuts": kmax, "all_cut_sets_up_to_len": full_n}));
     ctx.set_extra("inputs", json!(ins.len()));
     ctx.scope_done("fragmentations", runs.load(Ordering::Relaxed), t0, &format!("{} inputs", ins.len()));
